@@ -45,7 +45,7 @@ def canon(chain):
     return out
 
 
-def leading_run_survivors(chain):
+def leading_run_survivors(chain, maxlen=4):
     """evaluate the chain's own string operations (those before normpath / join) on every
     leading run of up to four slashes and backslashes followed by `x`: the runs
     which are not removed completely, or None when an operation is not modelled"""
@@ -57,7 +57,7 @@ def leading_run_survivors(chain):
             break
         ops.append(op)
     bad = []
-    for n in range(0, 5):
+    for n in range(0, maxlen + 1):
         for run in itertools.product("/\\", repeat=n):
             s = "".join(run) + "x"
             for op in ops:
@@ -187,7 +187,7 @@ def normaliser_agreement(ctx):
             ctx.check(order_ok, key + ".order", where,
                       "%s normaliser applies %s out of order (need backslash->slash and strip before normpath): %r" % (side, toks, ch),
                       "ops %s" % toks)
-            surv = leading_run_survivors(ch)
+            surv = leading_run_survivors(ch, 4 if ctx.tier != "thorough" else 8)
             if surv is None:
                 ctx.undecided(key + ".leading-run", where, "an operation of %r is not modelled" % ch)
             else:
